@@ -26,11 +26,14 @@ use std::sync::Once;
 
 static INIT: Once = Once::new();
 
+pub const PHYSICAL_POOL: usize = 160;
+
 /// Process-wide initialisation of a process that executes plans.
 pub fn init_process() {
     INIT.call_once(|| {
-        // a physical pool much larger than any parallel section (<= 20 tasks): see DESIGN.md 3.3
-        rayon::ThreadPoolBuilder::new().num_threads(40).build_global().expect("rayon global pool");
+        // a physical pool larger than any parallel section: explicit n_trees <= 20, automatic
+        // n_trees < dimension <= 130 (see DESIGN.md 3.3); every task must be able to arrive at once
+        rayon::ThreadPoolBuilder::new().num_threads(PHYSICAL_POOL).build_global().expect("rayon global pool");
         ctx::install_hooks();
         // panics inside arroy are caught and reported as findings; keep stderr quiet
         if std::env::var("VERIF_PANIC_MSG").is_err() {
